@@ -33,6 +33,8 @@ class MemFS(object):
 class _Writer(object):
     def __init__(self, name, enc, binary):
         self.name, self.enc, self.binary = name, enc, binary
+        if not binary:
+            self.encoding = enc or "utf-8"      # like io.TextIOWrapper
         self.buf = []
         self.closed = False
         MemFS.files[name] = b""
